@@ -152,6 +152,16 @@ def evaluate(ctx: Ctx, jobs: list[dict], results: list[dict], label: str) -> Non
                 # (or at rounding-noise level) and the driven atoms evolve in mean field, whatever dt and precision are.  The
                 # finding is identified by this input class; every other clause and every other input still alarms.
                 key = f"{label}:tdvp-projection-error:slm-frozen-atoms-between-interacting-atoms"
+            if v[2] == "result-values-differ-from-reference" and not key.endswith("slm-frozen-atoms-between-interacting-atoms"):
+                # Second-order TDVP has a splitting error that depends on dt (and on how strongly the step is driven), not on
+                # `precision`.  An error that VANISHES under time-step refinement is discretisation error; one that persists is a
+                # defect.  Decision: the same scenario at dt/4 (same evaluation times, its own exact reference on its own rows)
+                # must pass its value check for the mismatch at dt to be attributed to discretisation.
+                r4 = mps_worker(dict(job, dt=job["dt"] / 4.0, id=job["id"] + 500000))
+                if not r4["error"] and r4["margins"].get("values", 9.0) <= 1.0 and r4.get("K", 0) > r.get("K", 0):
+                    ctx.coverage["dt_limited"] = ctx.coverage.get("dt_limited", 0) + 1
+                    ctx.notes.append(f"scenario {job['id']}: value mismatch at dt={job['dt']} ({r.get('why')}) vanishes at dt/4 (margin {r4['margins'].get('values'):.3g}): discretisation error of the TDVP step")
+                    continue
             ctx.violation(key, f"trace of a real emu-mps run rejected by MPSRunTrace at event {v[1]}: {v[2]} (strata {job['strata']}, perm {r['perm']}, {r.get('why')})",
                           {"job": job, "event_index": v[1], "margins": r["margins"], "why": r.get("why"), "perm": r["perm"]})
     ctx.coverage[f"worst_margin_{label}"] = round(worst, 4)
